@@ -140,24 +140,100 @@ class Engine:
         return self.prop is None or not cl.serves or self.prop in cl.serves
 
     # ---------------------------------------------------------------- solver
-    def _solver(self):
+    def _solver(self, formulas=None):
+        """A solver loaded with the axioms RELEVANT to `formulas`: the closure, under sharing an uninterpreted or
+        recursive function symbol, of the symbols occurring in them.  An axiom outside the closure shares no symbol with
+        the query, so leaving it out changes neither `unsat` (fewer assumptions) nor `sat` (the axiom set as a whole is
+        satisfiable over the same sorts, checked by install_axioms; models of disjoint signatures combine)."""
         s = z3.Solver()
         s.set('timeout', self.timeout_ms)
-        for a in self.ctx.axioms:
-            s.add(a)
+        axs = self.ctx.axioms
+        if formulas is None or os.environ.get('PYVC_ALL_AXIOMS'):
+            for a in axs:
+                s.add(a)
+            return s
+        syms = set()
+        for f in formulas:
+            syms |= self._symbols(f)
+        pending = [(a, self._symbols(a)) for a in axs]
+        changed = True
+        while changed and pending:
+            changed = False
+            rest = []
+            for a, sy in pending:
+                if not sy or (sy & syms):
+                    s.add(a)
+                    if not sy <= syms:
+                        syms |= sy
+                        changed = True
+                else:
+                    rest.append((a, sy))
+            pending = rest
         return s
+
+    def _symbols(self, f):
+        """Names of the uninterpreted / recursive function symbols and constants in f (memoised per AST node)."""
+        cache = self.__dict__.setdefault('_symcache', {})
+        if not z3.is_expr(f):
+            return frozenset()
+        root = f.get_id()
+        if root in cache:
+            return cache[root][1]
+        out = set()
+        seen = set()
+        stack = [f]
+        while stack:
+            x = stack.pop()
+            i = x.get_id()
+            if i in seen:
+                continue
+            seen.add(i)
+            if i in cache:
+                out |= cache[i][1]
+                continue
+            if z3.is_quantifier(x):
+                stack.append(x.body())
+                for k in range(x.num_patterns()):
+                    pass
+                continue
+            if z3.is_app(x):
+                d = x.decl()
+                if d.kind() in (z3.Z3_OP_UNINTERPRETED, z3.Z3_OP_RECURSIVE):
+                    out.add(d.name())
+                stack.extend(x.children())
+        out = frozenset(out)
+        cache[root] = (f, out)          # the expression is kept alive: z3 recycles the ids of collected ASTs
+        return out
 
     def check_valid(self, st: State, goal, timeout_ms=None):
         """returns (status, model_text). status in discharged / refuted / open"""
         t0 = time.time()
-        s = self._solver()
+        s = self._solver(list(st.pc) + [goal])
         if timeout_ms is not None:
             s.set('timeout', timeout_ms)
             s.set('smt.mbqi', False)
+        else:
+            s.set('timeout', min(self.timeout_ms, 15000))
         for a in st.pc:
             s.add(a)
         s.add(z3.Not(goal))
         r = s.check()
+        if r == z3.unknown and timeout_ms is None:
+            # portfolio: z3's search is erratic (heavy-tailed) on queries with recursive functions and quantifier
+            # alternation -- the same query is decided in 0.2 s in one process and not in 300 s in another, or in
+            # seconds once *more* assumptions are present.  Restart with other seeds and short budgets, then with
+            # the complete axiom set and the full budget, before giving the query to cvc5.
+            for seed, full_axioms, budget in ((1, False, 10000), (2, False, 10000), (3, True, self.timeout_ms)):
+                s = self._solver(None if full_axioms else list(st.pc) + [goal])
+                s.set('timeout', min(budget, self.timeout_ms))
+                s.set('random_seed', seed)
+                s.set('smt.random_seed', seed)
+                for a in st.pc:
+                    s.add(a)
+                s.add(z3.Not(goal))
+                r = s.check()
+                if r != z3.unknown:
+                    break
         dt = time.time() - t0
         self.solver_time += dt
         self.queries += 1
@@ -193,7 +269,7 @@ class Engine:
 
     def feasible(self, st: State, cond=None) -> bool:
         t0 = time.time()
-        s = self._solver()
+        s = self._solver(list(st.pc) + ([cond] if cond is not None else []))
         s.set('timeout', 2000 if self.ctx.finite else 500)
         s.set('smt.mbqi', False)          # `unknown` (treated as feasible) is returned as soon as E-matching saturates
         for a in st.pc:
@@ -1410,6 +1486,13 @@ class CallEval:
         a = self.e.ev(n.args[0])
         ch = z3.Union(z3.Range('0', '9'), z3.Range('a', 'f'))
         return SV(BOOL, z3.InRe(a.z, z3.Loop(ch, 40, 40)))
+
+    def fn_is_key_shape(self, n):
+        """(pickle__|'') identifier '__' 40 hex digits -- the shape of the keys the provided caches build."""
+        a = self.e.ev(n.args[0])
+        ch = z3.Union(z3.Range('a', 'z'), z3.Range('A', 'Z'), z3.Range('0', '9'), z3.Re('_'))
+        hx = z3.Union(z3.Range('0', '9'), z3.Range('a', 'f'))
+        return SV(BOOL, z3.InRe(a.z, z3.Concat(z3.Union(z3.Re('pickle__'), z3.Re('')), z3.Plus(ch), z3.Re('__'), z3.Loop(hx, 40, 40))))
 
     def fn_concat(self, n):
         parts = [self.e.ev(x).z for x in n.args]
